@@ -12,6 +12,9 @@ def run(tier, only=None):
     rep = report.Report("C03", tier, "model_checking")
     eng = enc.EncEngine("C03", tier)
     sks = families.c03_families(tier == "quick")
+    if tier == "quick":
+        # per-change tier: 'and'/'cmp' memory destinations go through the same rows and code as 'add' (kept in full)
+        sks = [s for s in sks if not (s.name.split(".")[1] in ("and", "cmp") and ".m_" in s.name and not s.name.endswith(".neghex"))]
     if only:
         sks = [s for s in sks if fnmatch.fnmatch(s.name, only)]
     rep.add(eng.run_family(sks))
